@@ -44,6 +44,15 @@ func Run(c *core.Ctx) int {
 		if res.Verdict != "inconclusive" {
 			programs++
 		}
+		for _, s := range []struct {
+			name  string
+			files map[string]string
+		}{{"c04/sentinel/composite-of-nested-type", SentinelCompositeOfNested()}, {"c04/sentinel/nested-type-as-func-type-arg", SentinelNestedFuncTypeArg()}} {
+			res := c.DiffProgram(&core.Program{Name: s.name, Files: s.files}, core.DiffOpt{})
+			if res.Verdict != "inconclusive" {
+				programs++
+			}
+		}
 	}
 	c.Count("programs", programs)
 	c.Count("trace_lines_compared", lines)
